@@ -15,7 +15,9 @@ STRS = ["", "a", "abc", "héllo wörld", "日本語", "quote\"back\\slash", "lin
         # text that is not in a Unicode normalisation form: decomposed accent, Angstrom / Ohm signs, conjoining jamo
         "de\u0301compose\u0301", "\u212b \u2126", "\u1112\u1161\u11ab",
         # a backslash among plain characters, next to the text that JSON would write with that escape
-        "C:\\new", "C:\new", "caf\\u00e9", "caf\u00e9", "tab\\there"]
+        "C:\\new", "C:\new", "caf\\u00e9", "caf\u00e9", "tab\\there",
+        # the other line endings, and characters that some readers take for one
+        "dos\r\nlines\r\n", "old mac\rlines", "unit\x1fsep \x85 next \u2028 line \x0c feed", "\ufeffbom first"]
 INTS = [0, 1, -1, 2, 7, 255, -256, 2**31, -(2**31) - 1, 2**63, 2**64 + 1, 10**30, -(10**25)]
 FLOATS = [0.0, -0.0, 1.0, -1.5, 0.1, 1e-310, 5e-324, 1e308, -1e308, float("inf"),
           float("-inf"), float("nan"), 3.141592653589793, 1e16, 123456.789]
